@@ -19,7 +19,7 @@ import sys
 import pendulum
 from pendulum.tz.timezone import Timezone
 
-from .obs import observe
+from .obs import observe, raw_fold
 from .ops import Env, Skip, build, execute, op_label
 from .sched import HarnessError, Scheduler
 from .world import World, get_world
@@ -31,10 +31,12 @@ MAX_ASSIGNMENTS = 24
 
 class Run:
     __slots__ = ("sc", "recs", "regw", "fslog", "fired", "sched", "digest", "capped",
-                 "nsteps", "nswitch", "mid_switches", "overlaps", "sites", "explicit")
+                 "nsteps", "nswitch", "mid_switches", "overlaps", "sites", "explicit", "pool_obs",
+                 "pool_fold", "results")
 
     def __init__(self):
         self.recs = {}
+        self.results = {}
         self.regw = []
         self.fslog = []
         self.fired = []
@@ -98,6 +100,9 @@ def simulate(sc, full_digest=True) -> Run:
     gc.disable()
     try:
         pool = [build(s, None) for s in sc.get("pool", [])]
+        # only for pools of values without lazily filled slots (DateTime/Date): the scenario asks for it
+        run.pool_obs = [observe(v) for v in pool] if sc.get("observe_pool") else None
+        run.pool_fold = [raw_fold(v) for v in pool]
         run.regw = [(0, 0, r, v) for r, v in world.regs().items()]
         run.fslog = [(0, 0, fs_snapshot(world))]
         inflight = {}
@@ -120,6 +125,7 @@ def simulate(sc, full_digest=True) -> Run:
 
             def fn(a):
                 results = []
+                run.results[name] = results
                 env = Env(pool, results)
                 for i, op in enumerate(ops):
                     f = op[0]
@@ -153,6 +159,7 @@ def simulate(sc, full_digest=True) -> Run:
                         if res is Skip:
                             rec["obs"] = ["SKIP"]
                         else:
+                            rec["fold"] = raw_fold(res)
                             try:
                                 rec["obs"] = observe(res)
                             except Exception as e:
@@ -283,7 +290,10 @@ def l1_check(run: Run, prop=None):
                 stats["l1_evals"] += 1
                 expected.append({"regs": asg, "obs": o})
                 if o == rec["obs"]:
-                    qres.append(res)
+                    # later ops of this client take the *simulated* result object as input, so that
+                    # hidden state of a correct result (fold of an unambiguous time, tzinfo identity)
+                    # flows into the reference evaluation exactly as it did in the simulation
+                    qres.append(run.results[name][i])
                     matched = True
                     break
             if matched:
